@@ -41,7 +41,7 @@ theorem sendDirect_rd (c : Conn) (data : Bytes) (r : WriteRes) : SameRd c (sendD
   cases r with
   | took n =>
     simp only [sendDirect]; split
-    · exact SameRd.trans (b := enqueue { c with wrote := c.wrote ++ data.take n } .writeComplete) ⟨rfl, rfl, rfl, rfl⟩ (queueRemainder_rd _ _ _ _)
+    · exact SameRd.trans (b := enqueue { c with wrote := c.wrote ++ data.take n } (.writeComplete (bindCb wcBindSend c.wcId))) ⟨rfl, rfl, rfl, rfl⟩ (queueRemainder_rd _ _ _ _)
     · exact SameRd.trans (b := { c with wrote := c.wrote ++ data.take n }) ⟨rfl, rfl, rfl, rfl⟩ (queueRemainder_rd _ _ _ _)
   | err e => exact queueRemainder_rd _ _ _ _
 
@@ -89,6 +89,8 @@ theorem act_rd (c : Conn) (f : Bool) (a : Act) : SameRd c (act c f a) := by
     · exact SameRd.rfl' c
   | stopRead => simp only [act]; exact handOff_rd _ _ _ _ _ (stopReadInLoop_rd _)
   | startRead => simp only [act]; exact handOff_rd _ _ _ _ _ (startReadInLoop_rd _)
+  | setWc k => exact ⟨rfl, rfl, rfl, rfl⟩
+  | setHwm k m => exact ⟨rfl, rfl, rfl, rfl⟩
 
 theorem callback_rd (c : Conn) (k : Cb) (e : Ev) : SameRd c (callback c k e) := by
   unfold callback; split
@@ -133,7 +135,7 @@ theorem afterDrain_rd (c : Conn) : SameRd c (afterDrain c) := by
   unfold afterDrain; simp only []
   split
   · split
-    · exact SameRd.trans (b := enqueue (disableWriting c) .writeComplete) ⟨rfl, rfl, rfl, rfl⟩ (handOff_rd _ _ _ _ _ (shutdownInLoop_rd _))
+    · exact SameRd.trans (b := enqueue (disableWriting c) (.writeComplete (bindCb wcBindDrain c.wcId))) ⟨rfl, rfl, rfl, rfl⟩ (handOff_rd _ _ _ _ _ (shutdownInLoop_rd _))
     · exact ⟨rfl, rfl, rfl, rfl⟩
   · split
     · exact SameRd.trans (b := disableWriting c) ⟨rfl, rfl, rfl, rfl⟩ (handOff_rd _ _ _ _ _ (shutdownInLoop_rd _))
